@@ -94,8 +94,15 @@ func c35AllReturns(c *Ctx, rule string, fn *ssa.Function, idx int, globs ...stri
 			bad = append(bad, c.P.InstrPos(in))
 			continue
 		}
-		if s := Path(retOperand(ret, idx)); !globAny(globs, s) {
-			bad = append(bad, s+" at "+c.P.InstrPos(in))
+		// a merged result (named result / `r := a; if c { r = b }; return r`) is judged through its incoming values
+		vals := []ssa.Value{retOperand(ret, idx)}
+		if phi, isPhi := vals[0].(*ssa.Phi); isPhi {
+			vals = phi.Edges
+		}
+		for _, v := range vals {
+			if s := Path(v); !globAny(globs, s) {
+				bad = append(bad, s+" at "+c.P.InstrPos(in))
+			}
 		}
 	}
 	construct := fmt.Sprintf("%s#every-return[%d]∈%v", c.P.Name(fn), idx, globs)
